@@ -411,6 +411,11 @@ def build(case, with_calls=True):
         calls.append(("plain", p, len(lines), text, plain))
         lines.append(text)
         if nd >= 2:
+            # positional arguments that compare a variable named like another dummy: 'name == 1' is not 'name=...'
+            cmpd = [f"{p['dummies'][(j + 1) % nd]['name']} == {j}" for j in range(nd)]
+            text = f"    call {p['name']}(" + ", ".join(cmpd) + ")"
+            calls.append(("plain", p, len(lines), text, cmpd))
+            lines.append(text)
             kw = [f"{d['name']}={a}" for d, a in zip(p["dummies"], actuals)]
             kw = [kw[0]] + list(reversed(kw[1:]))
             text = f"    call {p['name']}(" + ", ".join(kw) + ")"
@@ -571,6 +576,8 @@ def check_case(ctx, case, scratch):
         pos = base
         for ai, a in enumerate(actuals):
             cur = pos + max(1, len(a) // 2)
+            if " == " in a and kind == "plain":
+                cur = pos + len(a)  # past the comparison operator
             if kind not in ("positional", "plain") and "=" in a:
                 # a keyword argument is identified by the text before the cursor: place the cursor in the value
                 eq = a.index("=")
